@@ -12,7 +12,8 @@
 (*    san : Seq([w, fn]),          sanitizers as written (w = spelling)    *)
 (*    val : Seq([w, b, sp, fn]),   validators as written; b = bound        *)
 (*    der : Seq(STRING),           trait names as written                  *)
-(*    dfl : "" | "valid" | "invalid"]                                      *)
+(*    dfl : "" | "valid" | "invalid" | "block" (a valid default written   *)
+(*          as a block / if-else expression, i.e. with braces)]            *)
 (*                                                                         *)
 (* OPERATIONAL: Op* transcribes the pipeline parse_meta -> parse           *)
 (* attributes (a loop that ASSIGNS each block kind, common/parse/mod.rs:   *)
